@@ -75,20 +75,33 @@ theorem convAll_shape : ∀ (ts : List TestIn) (s : St), (convAll s ts).map shap
   | [], _ => rfl
   | t :: ts, s => by simp [convAll, convTest_shape, convAll_shape ts]
 
-theorem statuses_wrap (es : List Event) : statuses ([.start] ++ es.map .status ++ [.stop]) = some es := by
-  simp only [statuses, List.singleton_append, List.reverse_append, List.reverse_cons, List.reverse_nil, List.nil_append,
-    List.cons_append, List.reverse_reverse]
+theorem splitMid_run (es : List Event) : ∀ (acc : List Event) (rest : List StreamEv),
+    splitMid (some acc) (es.map .status ++ .stop :: rest) = (splitMid none rest).map ((acc ++ es) :: ·) := by
   induction es with
-  | nil => rfl
-  | cons e es ih => simp [List.mapM_cons, ih]
+  | nil => intro acc rest; simp [splitMid]
+  | cons e es ih => intro acc rest; simp [splitMid, ih]
 
-/-- **C09 (stream well-formed)**: between the converters the stream is `startTestRun`, then per test — in order — an
-`inprogress` event, for each detail in dict order its chunks with `eof` exactly on the last (a detail without chunks:
-one empty `eof` chunk), the reason file for a skip with a reason, and exactly one final status event (error and failure
-as `fail`), then `stopTestRun`. -/
+theorem splitMid_runs : ∀ runs : List (List TestIn), splitMid none ((runs.map midRun).flatten) = some (runs.map toStream)
+  | [] => rfl
+  | r :: runs => by
+      simp only [List.map_cons, List.flatten_cons, midRun, List.singleton_append, List.cons_append, List.append_assoc,
+        List.nil_append, splitMid]
+      rw [splitMid_run, splitMid_runs runs]
+      simp
+
+theorem all2_map_self {α β : Type} (p : α → β → Bool) (f : α → β) (h : ∀ a, p a (f a) = true) :
+    ∀ l : List α, Spec.C10.all2 p l (l.map f) = true
+  | [] => rfl
+  | a :: l => by simp [Spec.C10.all2, h a, all2_map_self p f h l]
+
+/-- **C09 (stream well-formed)**: between the converters the stream is, for each run, `startTestRun`, then per test —
+in order — an `inprogress` event, for each detail in dict order its chunks with `eof` exactly on the last (a detail
+without chunks: one empty `eof` chunk), the reason file for a skip with a reason, and exactly one final status event
+(error and failure as `fail`), then `stopTestRun`. -/
 theorem C09_stream_wf (i : Convert.Input) :
-    ∃ es : List Event, (Convert.model i).mid = [.start] ++ es.map .status ++ [.stop] ∧ es.map shape = (i.tests.map expectShapes).flatten :=
-  ⟨toStream i, rfl, convAll_shape i.tests _⟩
+    (Convert.model i).mid = (i.runs.map fun tests => [.start] ++ (toStream tests).map .status ++ [.stop]).flatten
+    ∧ ∀ tests, (toStream tests).map shape = (tests.map expectShapes).flatten :=
+  ⟨rfl, fun tests => convAll_shape tests _⟩
 
 
 /-! ## the way back: one report per test -/
@@ -551,11 +564,7 @@ theorem outcome_of (r : Result) : Spec.C10.specOutcome (streamStatus r) = some (
 
 theorem nowAt_eq (now t : Option Nat) : nowAt now t = lastTime now t := by cases t <;> rfl
 
-theorem timeOk_stamp (now : Option Nat) (s : Option Ts) (h : Spec.C10.timeOk (some (stamp now)) s = true) :
-    Spec.C10.timeOk (now.map .t) s = true := by
-  cases now with
-  | none => rfl
-  | some n => simpa [stamp] using h
+theorem stamp_eq (now : Option Nat) : stamp now = clockOf now := by cases now <;> rfl
 
 /-- reading the brackets of the reports back gives what the history demands -/
 theorem match_all : ∀ (ts : List TestIn) (s : St) (g : List Nat) (seen : List Spec.C10.Seen), SetEq s.gtags g →
@@ -581,32 +590,111 @@ theorem match_all : ∀ (ts : List TestIn) (s : St) (g : List Nat) (seen : List 
         simp only [matchesSeen, Bool.and_eq_true, beq_iff_eq]
         refine ⟨⟨⟨⟨⟨h1, h2⟩, ?_⟩, h4⟩, ?_⟩, ?_⟩
         · exact sameSet_of _ _ _ h3 (changeTags_setEq _ _ hg' t.ltags)
-        · rw [← nowAt_eq]; exact timeOk_stamp _ _ h5
-        · rw [← nowAt_eq, ← nowAt_eq]; exact timeOk_stamp _ _ h6
+        · rw [← nowAt_eq, ← stamp_eq]; simpa [Spec.C10.timeOk] using h5
+        · rw [← nowAt_eq, ← nowAt_eq, ← stamp_eq]; simpa [Spec.C10.timeOk] using h6
+
+/-! ## several runs on the same converters -/
+def IsBody (x : ExtEv) : Prop := x ≠ .startTestRun ∧ x ≠ .stopTestRun
+
+theorem splitExt_body (body : List ExtEv) (hb : ∀ x ∈ body, IsBody x) : ∀ (acc : List ExtEv) (rest : List ExtEv),
+    splitExt (some acc) (body ++ .stopTestRun :: rest) = (splitExt none rest).map ((acc ++ body) :: ·) := by
+  induction body with
+  | nil => intro acc rest; simp [splitExt]
+  | cons x body ih =>
+    intro acc rest
+    have hx := hb x (by simp)
+    have := ih (fun y hy => hb y (by simp [hy])) (acc ++ [x]) rest
+    cases x with
+    | startTestRun => exact absurd rfl hx.1
+    | stopTestRun => exact absurd rfl hx.2
+    | _ => simpa [splitExt] using this
+
+theorem optTime_body (t : Option Ts) : ∀ x ∈ optTime t, IsBody x := by
+  cases t <;> simp [optTime, IsBody]
+
+theorem bracket_body (r : Report) : ∀ x ∈ bracket r, IsBody x := by
+  intro x hx
+  simp only [bracket] at hx
+  split at hx
+  · simp at hx
+  · simp only [List.mem_append, List.mem_cons, List.not_mem_nil, or_false] at hx
+    rcases hx with ((h | h | h) | h) | h | h | h
+    · exact optTime_body _ x h
+    · subst h; simp [IsBody]
+    · subst h; simp [IsBody]
+    · exact optTime_body _ x h
+    · subst h; simp [IsBody]
+    · subst h; simp [IsBody]
+    · subst h; simp [IsBody]
+
+theorem brackets_body (rs : List Report) : ∀ x ∈ (rs.map bracket).flatten, IsBody x := by
+  intro x hx
+  simp only [List.mem_flatten, List.mem_map] at hx
+  obtain ⟨l, ⟨r, _, rfl⟩, hx⟩ := hx
+  exact bracket_body r x hx
+
+def bodyOf (tests : List TestIn) : List ExtEv := ((reportsOf { gtags := [], now := none } tests).map bracket).flatten
+
+theorem splitExt_runs : ∀ runs : List (List TestIn),
+    splitExt none ((runs.map fun tests => toExtended (toStream tests)).flatten) = some (runs.map bodyOf)
+  | [] => rfl
+  | r :: runs => by
+      simp only [List.map_cons, List.flatten_cons, toStream, toExtended_convAll, List.singleton_append, List.cons_append,
+        List.append_assoc, List.nil_append, splitExt]
+      rw [splitExt_body _ (brackets_body _) [] _]
+      have := splitExt_runs runs
+      simp only [toStream, toExtended_convAll, List.singleton_append, List.cons_append, List.append_assoc,
+        List.nil_append] at this
+      simp [this, bodyOf]
+
+theorem run_roundtrip (tests : List TestIn) :
+    ∃ seen, Spec.C10.interp {} (bodyOf tests) = some seen
+      ∧ Spec.C10.all2 matchesSeen (expectTests [] none tests) seen = true := by
+  obtain ⟨seen, h1, h2⟩ := Props.C10.interp_brackets _ (reportsOf_status tests { gtags := [], now := none }) none
+  exact ⟨seen, h1, match_all tests { gtags := [], now := none } [] seen (fun _ => Iff.rfl) h2⟩
 
 /-! ## headline -/
-theorem holds_model (i : Convert.Input) : holds i (model i) = true := by
+theorem holds_model (i : Convert.Input) : holds i (Convert.model i) = true := by
   simp only [holds, clauses, List.all_cons, List.all_nil, Bool.and_true, Bool.and_eq_true]
   refine ⟨?_, ?_⟩
-  · simp only [cStreamWf, Convert.model, statuses_wrap, toStream, convAll_shape]
-    simp
-  · simp only [cRoundTrip, Convert.model, toStream, toExtended_convAll, Props.C10.body_wrap]
-    obtain ⟨seen, h1, h2⟩ := Props.C10.interp_brackets _ (reportsOf_status i.tests { gtags := [], now := none }) none
-    have hh : ({} : Spec.C10.ISt) = { gtags := [], time := none, test := none, got := none } := rfl
-    rw [hh, h1]
-    exact match_all i.tests { gtags := [], now := none } [] seen (fun _ => Iff.rfl) h2
+  · simp only [cStreamWf, Convert.model, splitMid_runs]
+    apply all2_map_self
+    intro tests
+    simp [toStream, convAll_shape]
+  · simp only [cRoundTrip, Convert.model, splitExt_runs]
+    apply all2_map_self
+    intro tests
+    obtain ⟨seen, h1, h2⟩ := run_roundtrip tests
+    simp only [h1, h2]
 
-/-- **C09 (round trip)**: for every well-formed history the final extended result receives `startTestRun`, then per
-test — in order — one well-formed `startTest · outcome · stopTest` bracket with the same test id, the same outcome
-(error and failure both replayed as failure), exactly the reporter's current tags at the outcome in force, the
-supplied times in force at `startTest` and at the outcome, the skip reason (as the `reason` attachment) and every
-detail that has any bytes under the same name and content type with its chunks concatenated, then `stopTestRun`. -/
+/-- **C09 (round trip)**: for every well-formed history of runs on the same converter pair the final extended result
+receives, per run, `startTestRun`, then per test — in order — one well-formed `startTest · outcome · stopTest` bracket
+with the same test id, the same outcome (error and failure both replayed as failure), exactly the reporter's current
+tags at the outcome in force, the time in force at `startTest` and at the outcome — the last one supplied **in that
+run**, else the wall clock (`now`): never a time left over from an earlier run —, the skip reason (as the `reason`
+attachment) and every detail that has any bytes under the same name and content type with its chunks concatenated,
+then `stopTestRun`. -/
 theorem C09_roundtrip (i : Convert.Input) :
-    ∃ mid seen, (Convert.model i).ext = [.startTestRun] ++ mid ++ [.stopTestRun] ∧ Spec.C10.interp {} mid = some seen
-      ∧ Spec.C10.all2 matchesSeen (expectTests [] none i.tests) seen = true := by
-  obtain ⟨seen, h1, h2⟩ := Props.C10.interp_brackets _ (reportsOf_status i.tests { gtags := [], now := none }) none
-  refine ⟨_, seen, toExtended_convAll _ _, h1, ?_⟩
-  exact match_all i.tests { gtags := [], now := none } [] seen (fun _ => Iff.rfl) h2
+    (Convert.model i).ext = (i.runs.map fun tests => [.startTestRun] ++ bodyOf tests ++ [.stopTestRun]).flatten
+    ∧ ∀ tests, ∃ seen, Spec.C10.interp {} (bodyOf tests) = some seen
+        ∧ Spec.C10.all2 matchesSeen (expectTests [] none tests) seen = true := by
+  refine ⟨?_, run_roundtrip⟩
+  simp only [Convert.model, toStream, toExtended_convAll, bodyOf]
+
+/-- a run that supplies no `time()` is stamped with the wall clock whatever the earlier runs supplied: the
+expectations of a run do not depend on the runs before it (`startTestRun` resets tags and clock) -/
+theorem C09_runs_independent (tests : List TestIn) (h : ∀ t ∈ tests, t.t0 = none ∧ t.t1 = none) :
+    ∀ x ∈ expectTests [] none tests, x.tStart = .now ∧ x.tEnd = .now := by
+  suffices ∀ g, ∀ x ∈ expectTests g none tests, x.tStart = .now ∧ x.tEnd = .now from this []
+  induction tests with
+  | nil => intro g x hx; simp [expectTests] at hx
+  | cons t ts ih =>
+    intro g x hx
+    obtain ⟨h0, h1⟩ := h t (by simp)
+    simp only [expectTests, h0, h1, lastTime, List.mem_cons] at hx
+    rcases hx with rfl | hx
+    · exact ⟨rfl, rfl⟩
+    · exact ih (fun t' ht' => h t' (by simp [ht'])) _ x hx
 
 /-- detail payloads: bytes are preserved exactly — the carried bytes are the concatenation of the chunks -/
 theorem C09_detail_bytes (d : DetailIn) (x : Detail) (h : carried d = some x) :
@@ -628,14 +716,17 @@ theorem C09_detail_dropped (d : DetailIn) : carried d = none ↔ d.chunks.flatte
 /-! ## non-vacuity -/
 private def demo : Convert.Input :=
   { explicitStart := true
-    tests := [ { id := 0, gtags := some ([1], []), t0 := some 3, ltags := some ([2], [1]), t1 := none,
+    runs := [[ { id := 0, gtags := some ([1], []), t0 := some 3, ltags := some ([2], [1]), t1 := none,
                  result := .failure (.details [{ name := 2, mime := 1, chunks := [[], [65], [66, 67], []] },
                                                { name := 3, mime := 0, chunks := [] }]) },
                { id := 1, gtags := none, t0 := none, ltags := none, t1 := some 5, result := .skip (.reason [119, 233]) },
-               { id := 0, gtags := none, t0 := none, ltags := none, t1 := none, result := .error .err } ] }
+               { id := 0, gtags := none, t0 := none, ltags := none, t1 := none, result := .error .err } ],
+             [ { id := 2, gtags := none, t0 := none, ltags := none, t1 := none, result := .success none } ]] }
 
-example : ((Convert.model demo).mid.length, (Convert.model demo).ext.length) = (15, 23) := by decide
-example : (reportsOf { gtags := [], now := none } demo.tests).map (fun r => (r.id, r.status, r.tags, r.details.length))
+example : ((Convert.model demo).mid.length, (Convert.model demo).ext.length) = (19, 32) := by decide
+/-- the second run supplies no time: its events carry the wall clock, not the 5 of the first run -/
+example : (toStream (demo.runs.getD 1 [])).map (·.timestamp) = [some .now, some .now] := by decide
+example : (reportsOf { gtags := [], now := none } (demo.runs.getD 0 [])).map (fun r => (r.id, r.status, r.tags, r.details.length))
     = [(0, .fail, [2], 1), (1, .skip, [1], 1), (0, .fail, [1], 1)] := by decide
 example : encode [119, 233, 8364, 0x1F600] = [119, 0xC3, 0xA9, 0xE2, 0x82, 0xAC, 0xF0, 0x9F, 0x98, 0x80] := by decide
 
